@@ -741,7 +741,7 @@ pub fn c08(ctx: &mut Ctx, layer: &str) {
                         2 => RP::Disconnect { code: 0, props: Vec::new() },
                         3 => RP::Publish { dup: false, qos: 0, retain: false, topic: gen::topic_name(r, false), pid: None, props: Vec::new(), payload: Vec::new() },
                         4 if !small && i % 50 == 0 && j == 0 => {
-                            let (t, sh) = (*r.pick(&[128usize, 16_384, 2_097_152]), r.below(3) as u8);
+                            let (t, sh) = (*r.pick(&[128usize, 16_384, 2_097_152, 2_200_003]), r.below(3) as u8);
                             gen::gen_sized(r, fam, t, sh)
                         }
                         4 if !small => {
